@@ -24,6 +24,12 @@ CLAIMED = {
  "C19": ("model_checking", "exhaustive enumeration of the documents of a small SVG grammar, each parsed by the real ParseSVG and compared with an independent evaluator of the SVG semantics",
          "All documents of the grammar (7 size/viewBox forms x 10 transform lists nested up to 2 x 11 shapes x 18 style sources incl. attribute orders, style attribute, inheritance, CSS rules, colour syntaxes) are generated; for each one an independent evaluator written from the SVG specification gives canvas size, geometry in mm and computed style, which are compared with what the parsed canvas replays (two-sided dense Hausdorff distance, paints, effective stroke width, cap, join, miter limit).",
          "trusted: the evaluator (shape-to-path equivalences of SVG 1.1 ch. 9, cascade rules), internal/oracle; two known findings keyed by predicates on the document (rx!=ry, anisotropic viewBox)", "DESIGN.md §4 C19"),
+ "C04": ("exploration", "exhaustive enumeration of lattice polylines/contours and a curved menu x widths x cappers x joiners x tolerances against an analytic stroke/offset region oracle",
+         "Every open polyline with 1-2 (thorough 1-3) segments and every closed triangle/quadrilateral on the 4x4 lattice (simple, self-touching, self-crossing tallied separately) plus a curved menu, x 3 widths x 3 cappers x 7 joiners x 2 tolerances, is stroked by the real code; probes on an offset grid and at w/2 +- margins along normals and around vertices must be inside the result when within the SVG/PDF stroke region minus the margin and outside when beyond w/2 + margin and outside every allowed join/cap shape; Offset on simple closed contours against Minkowski dilation/erosion.",
+         "trusted: internal/oracle/stroke.go (segment bands, join sectors, bevel triangles, caps; weak bound limit*w/2 for miter/arcs joins); points beyond a butt cut are exempt as in the statement; three known findings keyed by input-only predicates (inradius < w/2, closed self-touching, curvature radius < w/2)", "DESIGN.md §3 C04"),
+ "C05": ("exploration", "exhaustive enumeration of a path menu x dash arrays x offsets against an independent model of the dash pattern and dense arc-length location of every returned piece",
+         "All paths of the menu (every segment type, all two-segment combinations in thorough, closed and multi-subpath paths) x all dash arrays of length 0-3 over {0,1,2.5} plus repeated patterns x 7 offsets (negative, beyond the period) are dashed by the real code; every returned piece is located on the input by arc length on the oracle's dense polyline and compared with the intervals an independent 15-line pattern model prescribes (on the path, in path order, interval ends, drawn length, joined piece on closed subpaths, degenerate patterns); the caller's slice must be unchanged.",
+         "trusted: internal/oracle/dash.go; tolerance 1e-9 relative on straight segments, max(1 %, 1e-3) per curved segment; one known finding keyed by the predicate 'path contains the exact-cusp cubic'", "DESIGN.md §3 C05"),
 }
 CUSTOM_CMD = {"C20": ("scripts/check_c20.sh quick", "scripts/check_c20.sh thorough")}
 REASON_PENDING = "check not built yet in this session (planned in DESIGN.md §9); not claimed until it exists and is green"
